@@ -24,6 +24,9 @@ pub fn threads() -> usize {
 }
 
 pub fn lim(depth: usize, max_states: u64, max_secs: f64) -> Limits {
+    // VERIF_DEPTH_DELTA: experiment knob (not used by registered commands)
+    let delta: i64 = std::env::var("VERIF_DEPTH_DELTA").ok().and_then(|s| s.parse().ok()).unwrap_or(0);
+    let depth = (depth as i64 + delta).max(1) as usize;
     Limits {
         depth,
         max_states,
